@@ -1750,6 +1750,8 @@ def run(ctx):
         types = {d['t'] for d in c['path'] if d['t'] != 'P'}
         ctx.count('net_path_' + {frozenset('E'): 'single_band', frozenset('M'): 'multi_band',
                                  frozenset('EM'): 'mixed', frozenset(): 'no_amp'}[frozenset(types)])
+        if any(a['t'] == 'A' for sg in c.get('desc', {}).get('segs', []) for a in sg['amps']):
+            ctx.count('net_auto_designed_multiband_oms')
         ctx.count('net_amplifiers_on_path', len([d for d in c['path'] if d['t'] != 'P']))
         ctx.count('net_channels_launched', len(c['chs']))
         if obs['filter']:
